@@ -6,7 +6,7 @@
    Vocabulary: w_fail counts the stdio calls that ended with errno <> 0; w_ledger the allocated file contexts; w_open the open
    FILE*; `wst w c fl op lg` = the file exists with content c, the fault plan is empty, and the three counters have these values. *)
 From Coq Require Import ZArith List Bool.
-From ScV Require Import Base.CInt MPI.Prog Gen.ErrClassC12 C12.FileModel C12.FileProofs.
+From ScV Require Import Base.CInt MPI.Prog Gen.ErrClassC12 Gen.OpenC12 C12.FileModel C12.FileProofs C12.MpiioModel C12.OpenGen C12.MpiioProofs.
 Import ListNotations.
 Local Open Scope Z_scope.
 
@@ -333,3 +333,347 @@ Example C12_ex_sched_read : fst (test_coll false 2 targs (world0 (File [1;2;3;4;
 Proof. exact test_read_short. Qed.
 Example C12_ex_sched_scenario : fst (test_scen 3 tops Absent tplan2) = true.
 Proof. exact test_scen_faults. Qed.
+
+(* ================================================================== T1: sc_io_open / close / read / write in three configurations *)
+(* (appended block; coq/C12/OpenGen.v)  The per-rank programs of the models - the ones co-simulated against the real code - are
+   proved EQUAL to the definitions tools/c2g generates from the CURRENT src/sc_io.c in each configuration (Gen/OpenC12.v:
+   A = without MPI, C = MPI without MPI I/O, B = MPI with MPI I/O).  `obs p replies` = the actions program p performs when the
+   environment answers with these replies, and its result.  In the generated tuples <f>_called / <f>_arg<i> are the calls of the
+   C function with their arguments, `ok` is the conjunction of all SC_CHECK_ABORT / SC_CHECK_MPI conditions (0 after SC_ABORT). *)
+(* sc_io_parse_access_mode without MPI: SC_IO_READ / WRITE_CREATE / WRITE_APPEND -> "rb" / "wb" / "ab" *)
+Theorem C12_gen_parse_A : forall a m, valid_amode a -> sc_io_parse_access_mode_A a m = (1, mode_str (mode_of_amode a)).
+Proof. exact gen_parse_A. Qed.
+Print Assumptions C12_gen_parse_A.
+
+(* the same function with MPI but without MPI I/O *)
+Theorem C12_gen_parse_C : forall a m, valid_amode a -> sc_io_parse_access_mode_C a m = (1, mode_str (mode_of_amode a)).
+Proof. exact gen_parse_C. Qed.
+Print Assumptions C12_gen_parse_C.
+
+(* with MPI I/O: RDONLY / WRONLY|CREATE / WRONLY|APPEND (an edit of one of the three lines breaks this theorem) *)
+Theorem C12_gen_parse_B : forall a m, valid_amode a -> sc_io_parse_access_mode_B a m = (1, amode_bits a).
+Proof. exact gen_parse_B. Qed.
+Print Assumptions C12_gen_parse_B.
+
+(* any other value of the enumeration ends in SC_ABORT in all three configurations *)
+Theorem C12_gen_parse_invalid : forall a m, ~ valid_amode a ->
+  fst (sc_io_parse_access_mode_A a m) = 0 /\ fst (sc_io_parse_access_mode_C a m) = 0 /\ fst (sc_io_parse_access_mode_B a m) = 0.
+Proof. exact gen_parse_invalid. Qed.
+Print Assumptions C12_gen_parse_invalid.
+
+(* the fopen modes of the token-passing fallback (a rank's turn, rank 0's re-open): "rb" for reads, "ab" for writes *)
+Theorem C12_gen_fallback_modes :
+  oc_fallback_modes_read = [mode_str MRead; mode_str MRead] /\ oc_fallback_modes_write = [mode_str MAppend; mode_str MAppend].
+Proof. exact gen_fallback_modes. Qed.
+Print Assumptions C12_gen_fallback_modes.
+
+(* sc_io_open, MPI without MPI I/O *)
+Theorem C12_gen_open_C : forall me amode comm fname info fileptr szof mret size_out size_ret rank_ret errno0 fo_errno fo_ret bc_out bc_ret ec_ret,
+  valid_amode amode -> (me = 0 -> bc_out = fo_errno) ->
+  let '(pm_called, pm_arg0, malloc_called, malloc_arg1, csize_called, csize_arg0, crank_called, crank_arg0, fopen_called,
+        fopen_arg0, fopen_arg1, bc_called, bc_in0, bc_arg1, bc_arg2, bc_root, bc_comm, ec_called, ec_arg0, free_called, free_arg1,
+        ok, hdl, file, ret) :=
+    sc_io_open_C comm fname amode info fileptr (snd (sc_io_parse_access_mode_C amode 0)) szof mret size_out size_ret me rank_ret
+                 errno0 fo_errno fo_ret bc_out bc_ret (errclass CfgC bc_out) ec_ret in
+  MpiioModel.obs (open_prog CfgC me amode kfin) ((if me =? 0 then [[b2z (nz fo_ret); fo_errno]] else []) ++ [[bc_out]])
+  = ((if fopen_called =? 1 then [Coll K_FOPEN 0 [mode_code_of_str fopen_arg1]] else [])
+       ++ (if bc_called =? 1 then [Coll K_BCAST bc_root (if me =? bc_root then [bc_in0] else [])] else []),
+     Some [ret; malloc_called - free_called; if free_called =? 1 then 0 else b2z (nz file)])
+  /\ pm_called = 1 /\ pm_arg0 = amode /\ ec_called = 1 /\ ec_arg0 = bc_out /\ bc_arg1 = 1 /\ bc_comm = comm /\ fopen_arg0 = (if me =? 0 then fname else 0)
+  /\ (free_called = 1 -> free_arg1 = mret /\ hdl = 0) /\ (free_called = 0 -> hdl = mret)
+  /\ (ok = 1 <-> size_ret = 0 /\ rank_ret = 0 /\ bc_ret = 0 /\ ec_ret = 0).
+Proof. exact gen_open_C. Qed.
+Print Assumptions C12_gen_open_C.
+
+(* sc_io_open without MPI *)
+Theorem C12_gen_open_A : forall amode comm fname info fileptr szof mret size_out size_ret rank_ret errno0 fo_errno fo_ret bc_ret ec_ret,
+  valid_amode amode ->
+  let '(pm_called, pm_arg0, malloc_called, malloc_arg1, csize_called, csize_arg0, crank_called, crank_arg0, fopen_called,
+        fopen_arg0, fopen_arg1, bc_called, bc_in0, bc_arg1, bc_arg2, bc_root, bc_comm, ec_called, ec_arg0, free_called, free_arg1,
+        ok, hdl, file, ret) :=
+    sc_io_open_A comm fname amode info fileptr (snd (sc_io_parse_access_mode_A amode 0)) szof mret size_out size_ret 0 rank_ret
+                 errno0 fo_errno fo_ret fo_errno bc_ret (errclass CfgA fo_errno) ec_ret in
+  MpiioModel.obs (open_prog CfgA 0 amode kfin) [[b2z (nz fo_ret); fo_errno]]
+  = ((if fopen_called =? 1 then [Coll K_FOPEN 0 [mode_code_of_str fopen_arg1]] else []),
+     Some [ret; malloc_called - free_called; if free_called =? 1 then 0 else b2z (nz file)])
+  /\ bc_in0 = fo_errno /\ pm_called = 1 /\ pm_arg0 = amode /\ ec_called = 1 /\ ec_arg0 = fo_errno /\ fopen_arg0 = fname
+  /\ (free_called = 1 -> free_arg1 = mret /\ hdl = 0) /\ (free_called = 0 -> hdl = mret)
+  /\ (ok = 1 <-> size_ret = 0 /\ rank_ret = 0 /\ bc_ret = 0 /\ ec_ret = 0).
+Proof. exact gen_open_A. Qed.
+Print Assumptions C12_gen_open_A.
+
+(* sc_io_open with MPI I/O: MPI_File_open with the parsed amode; MPI_File_set_size (0) exactly when the open succeeded and amode is SC_IO_WRITE_CREATE; the class returned; the handle left behind *)
+Theorem C12_gen_open_B : forall ecl amode comm fname info fileptr fh o_ret ec_ret s_ret ec2_ret,
+  valid_amode amode -> (nz fh = (o_ret =? 0)) ->
+  let '(pm_called, pm_arg0, mo_called, mo_comm, mo_name, mo_amode, mo_info, ec_called, ec_arg0, ss_called, ss_file, ss_size,
+        ec2_called, ec2_arg0, ok, hdl, ret) :=
+    sc_io_open_B comm fname amode info fileptr (snd (sc_io_parse_access_mode_B amode 0)) fh o_ret (ecl o_ret) ec_ret s_ret
+                 (ecl s_ret) ec2_ret in
+  MpiioModel.obs (open_prog_B ecl amode kfinB) [[o_ret]; [s_ret]]
+  = ((if mo_called =? 1 then [Coll K_MOPEN 0 [mo_amode]] else []) ++ (if ss_called =? 1 then [Coll K_MSETSIZE 0 [ss_size]] else []),
+     Some [ret; b2z (nz hdl)])
+  /\ pm_called = 1 /\ pm_arg0 = amode /\ mo_comm = comm /\ mo_name = fname /\ mo_info = info /\ ec_called = 1 /\ ec_arg0 = o_ret
+  /\ (ss_called = 1 -> ss_file = fh /\ ec2_called = 1 /\ ec2_arg0 = s_ret) /\ hdl = fh
+  /\ (ok = 1 <-> ec_ret = 0 /\ (ss_called = 1 -> ec2_ret = 0)).
+Proof. exact gen_open_B. Qed.
+Print Assumptions C12_gen_open_B.
+
+(* sc_io_close, MPI without MPI I/O (incl. the SC_CHECK_ABORT `fclose return value inconsistent`) *)
+Theorem C12_gen_close_C : forall me fileptr file errno0 fc_errno fc_ret ec_ret comm bc_out bc_ret hdl0,
+  (me = 0 -> bc_out = (if nz file then errclass CfgC fc_errno else 0)) -> (nz file = true -> me = 0) ->
+  let '(fclose_called, fclose_arg0, ec_called, ec_arg0, bc_called, bc_in0, bc_arg1, bc_arg2, bc_root, bc_comm, free_called,
+        free_arg1, ok, hdl, ret) :=
+    sc_io_close_C fileptr file errno0 fc_errno fc_ret (errclass CfgC fc_errno) ec_ret comm bc_out bc_ret hdl0 in
+  (ok = 1 ->
+   MpiioModel.obs (close_prog CfgC me (mkH true (nz file)) kfin) ((if nz file then [[fc_ret; fc_errno]] else []) ++ [[bc_out]])
+   = ((if fclose_called =? 1 then [Coll K_FCLOSE 0 []] else [])
+        ++ (if bc_called =? 1 then [Coll K_BCAST bc_root (if me =? bc_root then [bc_in0] else [])] else []),
+      Some [ret; 1 - free_called; 0]))
+  /\ (ok = 0 -> nz file = true ->
+      MpiioModel.obs (close_prog CfgC me (mkH true (nz file)) kfin) [[fc_ret; fc_errno]] = ([Coll K_FCLOSE 0 []], Some [ABORT_MARK])
+      \/ ec_ret <> 0 \/ bc_ret <> 0)
+  /\ free_called = 1 /\ free_arg1 = hdl0 /\ hdl = 0 /\ bc_comm = comm /\ fclose_arg0 = (if nz file then file else 0)
+  /\ ec_arg0 = (if nz file then fc_errno else 0).
+Proof. exact gen_close_C. Qed.
+Print Assumptions C12_gen_close_C.
+
+(* sc_io_close without MPI *)
+Theorem C12_gen_close_A : forall fileptr file errno0 fc_errno fc_ret ec_ret comm bc_ret hdl0,
+  let '(fclose_called, fclose_arg0, ec_called, ec_arg0, bc_called, bc_in0, bc_arg1, bc_arg2, bc_root, bc_comm, free_called,
+        free_arg1, ok, hdl, ret) :=
+    sc_io_close_A fileptr file errno0 fc_errno fc_ret (errclass CfgA fc_errno) ec_ret comm
+                  (if nz file then errclass CfgA fc_errno else 0) bc_ret hdl0 in
+  (ok = 1 ->
+   MpiioModel.obs (close_prog CfgA 0 (mkH true (nz file)) kfin) (if nz file then [[fc_ret; fc_errno]] else [])
+   = ((if fclose_called =? 1 then [Coll K_FCLOSE 0 []] else []), Some [ret; 1 - free_called; 0]))
+  /\ (ok = 0 -> nz file = true ->
+      MpiioModel.obs (close_prog CfgA 0 (mkH true (nz file)) kfin) [[fc_ret; fc_errno]] = ([Coll K_FCLOSE 0 []], Some [ABORT_MARK])
+      \/ ec_ret <> 0 \/ bc_ret <> 0)
+  /\ bc_in0 = (if nz file then errclass CfgA fc_errno else 0)
+  /\ free_called = 1 /\ free_arg1 = hdl0 /\ hdl = 0 /\ fclose_arg0 = (if nz file then file else 0)
+  /\ ec_arg0 = (if nz file then fc_errno else 0).
+Proof. exact gen_close_A. Qed.
+Print Assumptions C12_gen_close_A.
+
+(* sc_io_close with MPI I/O *)
+Theorem C12_gen_close_B : forall ecl fileptr fh_after c_ret ec_ret,
+  let '(mc_called, ec_called, ec_arg0, ok, hdl, ret) := sc_io_close_B fileptr fh_after c_ret (ecl c_ret) ec_ret in
+  MpiioModel.obs (close_prog_B ecl kfinB) [[c_ret]] = ((if mc_called =? 1 then [Coll K_MCLOSE 0 []] else []), Some [ret; 0])
+  /\ ec_called = 1 /\ ec_arg0 = c_ret /\ hdl = fh_after /\ (ok = 1 <-> ec_ret = 0).
+Proof. exact gen_close_B. Qed.
+Print Assumptions C12_gen_close_B.
+
+(* sc_io_read / sc_io_write without MPI I/O: SC_ABORT *)
+Theorem C12_gen_seq_AC : forall f p z t m,
+  sc_io_read_A f p z t m = 0 /\ sc_io_read_C f p z t m = 0 /\ sc_io_write_A f p z t m = 0 /\ sc_io_write_C f p z t m = 0
+  /\ MpiioModel.obs seq_prog_AC [] = ([], Some [ABORT_MARK]).
+Proof. exact gen_seq_AC. Qed.
+Print Assumptions C12_gen_seq_AC.
+
+(* sc_io_read / sc_io_write with MPI I/O: one MPI_File_read / MPI_File_write of (int) zcount elements, abort unless it returns MPI_SUCCESS *)
+Theorem C12_gen_seq_B : forall (wr : bool) f p z t m st mret size data rd,
+  let '(called, a_file, a_buf, a_count, a_type, ok) :=
+    if wr then sc_io_write_B f p z t m st mret else sc_io_read_B f p z t m st mret in
+  MpiioModel.obs (seq_prog_B wr size z data kdata) [mret :: 0 :: rd]
+  = ((if called =? 1 then [Coll (if wr then K_MWRITE else K_MREAD) 0 (size :: a_count :: (if wr then data else []))] else []),
+     Some (if ok =? 1 then 0 :: rd else [ABORT_MARK]))
+  /\ a_file = f /\ a_buf = p /\ a_type = t.
+Proof. exact gen_seq_B. Qed.
+Print Assumptions C12_gen_seq_B.
+
+(* sc_io_read_count (repair d6b0a0c): MPI_Get_count, and bytes / type size when that is MPI_UNDEFINED *)
+Theorem C12_gen_read_count_B : forall st t oc gc_ret gc2_ret ts_ret n s,
+  let '(gc_called, gc_st, gc_t, gc2_called, gc2_st, gc2_t, ts_called, ts_t, ok, ocd) :=
+    sc_io_read_count_B st t oc (get_count n s) gc_ret n gc2_ret s ts_ret in
+  ocd = read_count n s /\ gc_called = 1 /\ gc_st = st /\ gc_t = t
+  /\ (gc2_called = 1 <-> get_count n s = ocB_MPI_UNDEFINED) /\ (gc2_called = 1 -> gc2_st = st /\ ts_called = 1 /\ ts_t = t).
+Proof. exact gen_read_count_B. Qed.
+Print Assumptions C12_gen_read_count_B.
+
+(* MPI I/O branch of sc_io_read_at *)
+Theorem C12_gen_read_at_B : forall ecl f off p count t ocp st mret rc_st ec_ret size nbytes rd,
+  let '(called, a_file, a_off, a_buf, a_count, a_type, rc_called, rc_t, ec_called, ec_arg0, ok, ocd, ret) :=
+    sc_io_read_at_B f off p count t ocp st mret rc_st (read_count nbytes size) (ecl mret) ec_ret in
+  MpiioModel.obs (rw_prog_B ecl false false off size count [] k3) [mret :: nbytes :: rd]
+  = ((if called =? 1 then [Coll K_MREADAT 0 [a_off; size; a_count]] else []),
+     Some (ret :: ocd :: (if rc_called =? 1 then firstn (Z.to_nat (size * ocd)) rd else [])))
+  /\ a_file = f /\ a_buf = p /\ a_type = t /\ (rc_called = 1 -> rc_t = t) /\ (rc_called = 0 -> ec_called = 1 /\ ec_arg0 = mret)
+  /\ (ok = 1 <-> (rc_called = 0 -> ec_ret = 0)).
+Proof. exact gen_read_at_B. Qed.
+Print Assumptions C12_gen_read_at_B.
+
+(* MPI I/O branch of sc_io_read_at_all *)
+Theorem C12_gen_read_at_all_B : forall ecl f off p count t ocp st mret rc_st ec_ret size nbytes rd,
+  let '(called, a_file, a_off, a_buf, a_count, a_type, rc_called, rc_t, ec_called, ec_arg0, ok, ocd, ret) :=
+    sc_io_read_at_all_B f off p count t ocp st mret rc_st (read_count nbytes size) (ecl mret) ec_ret in
+  MpiioModel.obs (rw_prog_B ecl true false off size count [] k3) [mret :: nbytes :: rd]
+  = ((if called =? 1 then [Coll K_MREADATALL 0 [a_off; size; a_count]] else []),
+     Some (ret :: ocd :: (if rc_called =? 1 then firstn (Z.to_nat (size * ocd)) rd else [])))
+  /\ a_file = f /\ a_buf = p /\ a_type = t /\ (rc_called = 1 -> rc_t = t) /\ (rc_called = 0 -> ec_called = 1 /\ ec_arg0 = mret)
+  /\ (ok = 1 <-> (rc_called = 0 -> ec_ret = 0)).
+Proof. exact gen_read_at_all_B. Qed.
+Print Assumptions C12_gen_read_at_all_B.
+
+(* MPI I/O branch of sc_io_write_at *)
+Theorem C12_gen_write_at_B : forall ecl f off p count t ocp st mret gc_st gc_ret ec_ret size nbytes data,
+  let '(called, a_file, a_off, a_buf, a_count, a_type, gc_called, gc_t, ec_called, ec_arg0, ok, ocd, ret) :=
+    sc_io_write_at_B f off p count t ocp st mret gc_st (get_count nbytes size) gc_ret (ecl mret) ec_ret in
+  MpiioModel.obs (rw_prog_B ecl false true off size count data k3) [[mret; nbytes]]
+  = ((if called =? 1 then [Coll K_MWRITEAT 0 (a_off :: size :: a_count :: data)] else []), Some [ret; ocd])
+  /\ a_file = f /\ a_buf = p /\ a_type = t /\ (gc_called = 1 -> gc_t = t) /\ (gc_called = 0 -> ec_called = 1 /\ ec_arg0 = mret)
+  /\ (ok = 1 <-> (if gc_called =? 1 then gc_ret = 0 else ec_ret = 0)).
+Proof. exact gen_write_at_B. Qed.
+Print Assumptions C12_gen_write_at_B.
+
+(* MPI I/O branch of sc_io_write_at_all *)
+Theorem C12_gen_write_at_all_B : forall ecl f off p count t ocp st mret gc_st gc_ret ec_ret size nbytes data,
+  let '(called, a_file, a_off, a_buf, a_count, a_type, gc_called, gc_t, ec_called, ec_arg0, ok, ocd, ret) :=
+    sc_io_write_at_all_B f off p count t ocp st mret gc_st (get_count nbytes size) gc_ret (ecl mret) ec_ret in
+  MpiioModel.obs (rw_prog_B ecl true true off size count data k3) [[mret; nbytes]]
+  = ((if called =? 1 then [Coll K_MWRITEATALL 0 (a_off :: size :: a_count :: data)] else []), Some [ret; ocd])
+  /\ a_file = f /\ a_buf = p /\ a_type = t /\ (gc_called = 1 -> gc_t = t) /\ (gc_called = 0 -> ec_called = 1 /\ ec_arg0 = mret)
+  /\ (ok = 1 <-> (if gc_called =? 1 then gc_ret = 0 else ec_ret = 0)).
+Proof. exact gen_write_at_all_B. Qed.
+Print Assumptions C12_gen_write_at_all_B.
+
+(* ================================================================== configuration B: the wrapper on an abstract MPI I/O semantics *)
+(* (coq/C12/MpiioModel.v, MpiioProofs.v)  The MPI I/O library is a CONTRACT: `m_open / m_set_size / m_close / m_write_at /
+   m_read_at` = one file (a byte array), one amode per open, error codes injected by the plan (rank, call kind 20..28, call number);
+   `ecl` is ANY MPI_Error_class with ecl e = MPI_SUCCESS <-> e = MPI_SUCCESS.  The same semantics is the mock MPI I/O library
+   against which the real sc_io.c runs in the check (co-simulated call by call). *)
+
+(* MPI_Get_count handling: whole elements among n transferred bytes, also when the file ends inside an element (d6b0a0c) *)
+Theorem C12_B_read_count n s : 0 < s -> 0 <= n < 2147483648 -> read_count n s = n / s.
+Proof. exact (read_count_whole n s). Qed.
+Print Assumptions C12_B_read_count.
+
+(* ... which the code before the repair got wrong: MPI_Get_count's MPI_UNDEFINED (negative) was the reported count *)
+Theorem C12_B_get_count_undefined_refuted : get_count 10 4 < 0 /\ read_count 10 4 = 2.
+Proof. exact get_count_undefined_witness. Qed.
+Print Assumptions C12_B_get_count_undefined_refuted.
+
+(* sc_io_open with MPI I/O under every plan of injected error codes: one class for all ranks; SUCCESS iff no MPI I/O call
+   failed; then every rank holds a handle with the parsed amode; a failed open leaves no handle behind PROVIDED the failing
+   call is not MPI_File_set_size (guard; the unguarded statement is refuted next: F-C12h) *)
+Theorem C12_B_open ecl P g am g' cls : (forall e, ecl e = SUCC <-> e = SUCC) ->
+  valid_amode am -> plan_ok (w_plan (b_w g)) ->
+  gB_open ecl P g am = (g', cls) ->
+  exists x, cls = bcast_all P x
+  /\ (x = SUCC <-> w_fail (b_w g') = w_fail (b_w g))
+  /\ b_ok g' = (x =? SUCC)
+  /\ (x = SUCC -> b_bits g' = Some (amode_bits am) /\ w_open (b_w g') = w_open (b_w g) + P)
+  /\ (x <> SUCC -> w_plan (b_w g) 0 K_MSETSIZE (w_cnt (b_w g) 0 K_MSETSIZE) = None ->
+      b_bits g' = None /\ w_open (b_w g') = w_open (b_w g)).
+Proof. intros H. exact (B_open ecl H P g am g' cls). Qed.
+Print Assumptions C12_B_open.
+
+Theorem C12_B_open_setsize_refuted :
+  let '(g', cls) := gB_open errclassB 2 (gstB0 (File [7; 8; 9]) (planB 0 K_MSETSIZE 0 32)) c12_SC_IO_WRITE_CREATE in
+  cls = [32; 32] /\ b_ok g' = false /\ b_bits g' <> None /\ w_open (b_w g') = 2 /\ w_fail (b_w g') = 1.
+Proof. exact B_open_setsize_witness. Qed.
+Print Assumptions C12_B_open_setsize_refuted.
+
+Theorem C12_B_close ecl P g g' cls : (forall e, ecl e = SUCC <-> e = SUCC) ->
+  plan_ok (w_plan (b_w g)) -> gB_close ecl P g = (g', cls) ->
+  exists x, cls = bcast_all P x
+  /\ (x = SUCC <-> w_fail (b_w g') = w_fail (b_w g))
+  /\ b_bits g' = None /\ b_ok g' = false /\ w_open (b_w g') = w_open (b_w g) - P.
+Proof. intros H. exact (B_close ecl H P g g' cls). Qed.
+Print Assumptions C12_B_close.
+
+(* one rank's explicit-offset transfer (collective or not) under every plan *)
+Theorem C12_B_rw_success_iff ecl coll wr w bits q size a w' r : (forall e, ecl e = SUCC <-> e = SUCC) ->
+  plan_ok (w_plan w) -> 0 < size -> 0 <= a_count a -> size * a_count a < 2147483648 -> len (a_data a) = size * a_count a ->
+  gB_rw ecl coll wr w bits q size a = (w', r) ->
+  (r_cls r = SUCC <-> w_fail w' = w_fail w)
+  /\ 0 <= r_ocount r <= a_count a /\ w_open w' = w_open w
+  /\ (r_cls r = SUCC ->
+      if wr then r_ocount r = a_count a
+                /\ (0 < a_count a -> w_node w' = File (put (content w) (a_off a) (a_data a)))
+                /\ (a_count a = 0 -> w_node w' = w_node w)
+      else w_node w' = w_node w
+           /\ r_ocount r = (if 0 <? a_count a then whole (content w) (a_off a) size (a_count a) else 0)
+           /\ r_buf r = (if 0 <? a_count a
+                         then firstn (Z.to_nat (size * r_ocount r)) (avail (content w) (a_off a) size (a_count a)) else []))
+  /\ (r_cls r <> SUCC -> w_node w' = w_node w /\ r_ocount r = 0 /\ r_buf r = []).
+Proof. intros H. exact (B_rw_success_iff ecl H coll wr w bits q size a w' r). Qed.
+Print Assumptions C12_B_rw_success_iff.
+
+(* collective transfers: all ranks obtain the same class PROVIDED the MPI library injects no error into the collective
+   transfer itself (guard; an error reported to one rank only is handed on unsynchronised: refuted next, F-C12i) *)
+Theorem C12_B_coll_agree ecl wr w bits size args q w' rs : (forall e, ecl e = SUCC <-> e = SUCC) ->
+  (forall r k, w_plan w r (rw_kind true wr) k = None) ->
+  gB_coll ecl wr w bits q size args = (w', rs) ->
+  exists x, forall r, In r rs -> r_cls r = x.
+Proof. intros H. exact (B_coll_agree ecl H wr w bits size args q w' rs). Qed.
+Print Assumptions C12_B_coll_agree.
+
+Theorem C12_B_coll_disagree_refuted :
+  let '(w', rs) := gB_coll errclassB true (world0 (File []) (planB 1 K_MWRITEATALL 0 36)) (amode_bits c12_SC_IO_WRITE_CREATE) 0 1
+                           [mkA 0 2 [1; 2]; mkA 2 2 [3; 4]] in
+  map r_cls rs = [0; 36] /\ map r_ocount rs = [2; 0] /\ w_fail w' = 1.
+Proof. exact B_coll_disagree_witness. Qed.
+Print Assumptions C12_B_coll_disagree_refuted.
+
+(* ---- the property's last sentence for ALL THREE configurations: blocks consecutive in rank order behind the content of a file
+        that is open for writing give the same file - old content followed by the blocks in rank order - whether written by P
+        successive sc_io_write_at (A), by the token-passing fallback (C) or by MPI_File_write_at_all (B); ocount = count *)
+Theorem C12_configs_agree_ABC ecl gA gC wB c flA opA lgA flC opC lgC flB opB lgB m p s bits size args :
+  (forall e, ecl e = SUCC <-> e = SUCC) -> 0 < size ->
+  wst (g_w gA) c flA opA lgA -> g_s0 gA = Some (mkS m p) -> m <> MRead -> 0 <= p ->
+  wst (g_w gC) c flC opC lgC -> g_s0 gC = Some s -> at_end s c ->
+  wst wB c flB opB lgB -> can_write bits = true ->
+  args <> [] -> Forall (wf_arg size) args -> consec (len c) args ->
+  exists gA' gC' wB' rsC,
+    g_at_all CfgA true gA 0 size args = (gA', map (fun a => mkR (SUCCESS CfgA) (a_count a) []) args)
+    /\ g_coll true gC size args = Some (gC', rsC)
+    /\ gB_coll ecl true wB bits 0 size args = (wB', map (fun a => mkR SUCC (a_count a) []) args)
+    /\ map r_ocount rsC = map a_count args
+    /\ content (g_w gA') = c ++ concat (map a_data args)
+    /\ content (g_w gC') = content (g_w gA')
+    /\ content wB' = content (g_w gA').
+Proof. exact (configs_agree_ABC ecl gA gC wB c flA opA lgA flC opC lgC flB opB lgB m p s bits size args). Qed.
+Print Assumptions C12_configs_agree_ABC.
+
+(* ---- the known exceptions of the cross-configuration statement (known_findings.d/C12.txt), as kernel-evaluated witnesses *)
+(* SC_IO_WRITE_APPEND on a missing file: created without MPI I/O (A, C), refused with NO_SUCH_FILE with MPI I/O *)
+Theorem C12_append_missing_differs_refuted :
+  (let '(g', cls) := g_open CfgA 1 (gstate0 Absent (fun _ _ _ => None)) c12_SC_IO_WRITE_APPEND in
+   cls = [SUCCESS CfgA] /\ w_node (g_w g') = File [])
+  /\ (let '(g', cls) := g_open CfgC 2 (gstate0 Absent (fun _ _ _ => None)) c12_SC_IO_WRITE_APPEND in
+      cls = [SUCCESS CfgC; SUCCESS CfgC] /\ w_node (g_w g') = File [])
+  /\ (let '(g', cls) := gB_open errclassB 2 (gstB0 Absent (fun _ _ _ => None)) c12_SC_IO_WRITE_APPEND in
+      cls = [E_NO_SUCH_FILE; E_NO_SUCH_FILE] /\ w_node (b_w g') = Absent /\ b_bits g' = None).
+Proof. exact append_missing_witness. Qed.
+Print Assumptions C12_append_missing_differs_refuted.
+
+(* append mode and an offset that is not the end of file: MPI I/O honours the offset (A, C: C12_append_ignores_offset) *)
+Theorem C12_B_append_honours_offset :
+  let '(g1, _) := gB_open errclassB 1 (gstB0 (File [1; 2; 3]) (fun _ _ _ => None)) c12_SC_IO_WRITE_APPEND in
+  let '(w2, r) := gB_rw errclassB false true (b_w g1) (bits_of g1) 0 1 (mkA 0 2 [8; 9]) in
+  r_cls r = SUCC /\ r_ocount r = 2 /\ w_node w2 = File [8; 9; 3].
+Proof. exact B_append_honours_offset_witness. Qed.
+Print Assumptions C12_B_append_honours_offset.
+
+(* why the truncation must be decided by `amode == SC_IO_WRITE_CREATE` and the append mode must not carry MPI_MODE_CREATE
+   (seeded change C12e edited both): on the abstract semantics the existing content would be truncated away *)
+Theorem C12_B_truncate_on_append_refuted :
+  let bits := Z.lor (amode_bits c12_SC_IO_WRITE_APPEND) ocB_MPI_MODE_CREATE in
+  let '(w1, e) := m_open (world0 (File [1; 2; 3]) (fun _ _ _ => None)) 1 bits in
+  e = 0 /\ has bits ocB_MPI_MODE_CREATE = true /\ content (fst (m_set_size w1 bits 0)) = []
+  /\ has (amode_bits c12_SC_IO_WRITE_APPEND) ocB_MPI_MODE_CREATE = false.
+Proof. exact B_truncate_on_append_witness. Qed.
+Print Assumptions C12_B_truncate_on_append_refuted.
+
+(* hypotheses are satisfiable *)
+Example C12_ex_errclassB : forall e, errclassB e = SUCC <-> e = SUCC.
+Proof. exact errclassB_ok. Qed.
+Example C12_ex_session_B :
+  let '(g, outs) := gB_scen errclassB 3 (gstB0 Absent (fun _ _ _ => None)) ex_ops_B in
+  w_node (b_w g) = File [1; 2; 3; 4; 5; 6; 7; 8; 9; 10] /\ w_open (b_w g) = 0 /\ w_fail (b_w g) = 0
+  /\ nth 5 outs [] = [[0; 1; 0; 4; 1; 2; 3; 4]; [0; 1; 0; 4; 5; 6; 7; 8]; [0; 1; 0; 4; 5; 6; 7; 8]].
+Proof. exact ex_session_B. Qed.
+Example C12_ex_gen_open_B_create :
+  fst (MpiioModel.obs (open_prog_B errclassB c12_SC_IO_WRITE_CREATE kfinB) [[0]; [0]]) = [Coll K_MOPEN 0 [5]; Coll K_MSETSIZE 0 [0]]
+  /\ fst (MpiioModel.obs (open_prog_B errclassB c12_SC_IO_WRITE_APPEND kfinB) [[0]; [0]]) = [Coll K_MOPEN 0 [132]].
+Proof. split; reflexivity. Qed.
